@@ -62,6 +62,9 @@ def gen_cases(ctx):
                         # callers that also pass the optional arguments (other branches of the wait loop)
                         yield dict(base, opts=["progress_cb"])
                         yield dict(base, opts=["progress_cb", "cancel_token"], opts_for="odd")
+                    if pname in ("spread", "same_instant") and ids == "auto":
+                        # some callers choose ids that look like the ones the library chooses for the others
+                        yield dict(base, ids="lookalike")
                     if pname in ("spread", "across_polls") and ids != "auto":
                         # a second, unrelated connection in the same process whose callers use the very same ids
                         yield dict(base, twin_connection=True)
@@ -107,6 +110,29 @@ def exec_case(ctx, case: Dict[str, Any]) -> None:
         rid_of: Dict[int, Any] = {}
         sent_at: Dict[int, float] = {}
 
+        lookalike: Dict[int, Any] = {}
+        if case["ids"] == "lookalike":
+            # observe what a library-chosen id looks like on a scratch connection, then let the even callers pick
+            # "the next ones" explicitly (with uuid-style ids this is just another uuid)
+            probe = Pipe()
+
+            async def probe_server():
+                r = await probe.srv_recv.receive()
+                probe.srv_send.send_nowait(parse_message({"jsonrpc": "2.0", "id": r.id, "result": {}}))
+                return r.id
+            pt = asyncio.create_task(probe_server(), name="probe-server")
+            await send_message(probe.read, probe.write, "ping", None, timeout=TIMEOUT)
+            seen = await pt
+            probe.close()
+            for i in range(n):
+                if i % 2 == 0:
+                    if isinstance(seen, int) or (isinstance(seen, str) and seen.lstrip("-").isdigit()):
+                        nxt = int(seen) + 1 + (i // 2) + (i + 1) // 2   # the value the next auto id would take
+                        lookalike[i] = str(nxt) if isinstance(seen, str) else nxt
+                    else:
+                        import uuid
+                        lookalike[i] = str(uuid.uuid4())
+
         async def caller(i: int):
             if i > 0 and case.get("start_gap"):
                 await asyncio.sleep(case["start_gap"] * i)
@@ -123,7 +149,8 @@ def exec_case(ctx, case: Dict[str, Any]) -> None:
             try:
                 res = await send_message(pipe.read, pipe.write, "tools/call", {"tag": f"caller-{i}"},
                                          timeout=TIMEOUT, **kw,
-                                         message_id=(f"id-{i}" if case["ids"] == "explicit" else
+                                         message_id=(lookalike.get(i) if case["ids"] == "lookalike" else
+                                                     f"id-{i}" if case["ids"] == "explicit" else
                                                      # ids that differ only in their JSON type: 1, "1", 2, "2"
                                                      ((i // 2 + 1) if i % 2 == 0 else str(i // 2 + 1))
                                                      if case["ids"] == "type_twins" else None))
